@@ -90,6 +90,8 @@ def main():
             chk.assumptions = list(getattr(mod, 'ASSUMPTIONS', []))
             chk.trusted_base = list(getattr(mod, 'TRUSTED_BASE', []))
             chk.extra['facts'] = dict(bodies=nb, manifest=facts.manifest, repo=a.repo)
+            from .soft import SOFT
+            chk.soft_cfg = SOFT.get(p)
             if nb < FLOOR_BODIES:
                 chk.violation('facts', 'facts:floor:bodies', detail='only %d bodies extracted' % nb,
                               kind='anchor-lost')
@@ -108,6 +110,7 @@ def main():
                 import traceback
                 tb = traceback.format_exc().strip().splitlines()
                 chk.anchor_lost('run', '%s:run' % p, '%s: %s @ %s' % (type(e).__name__, e, tb[-3].strip() if len(tb) >= 3 else ''))
+            chk.resolve_soft()
             if a.tier == 'thorough' and not a.replay:
                 selftest(p, chk, a.repo)
             rc |= chk.finish()
